@@ -21,8 +21,14 @@ class Model:
         # valid colours: symbolic mask over 2^c colours (bit col = colour col is valid); default all valid
         if unit_colours is None: self.U = z3.BitVecVal((1 << (1 << c)) - 1, 1 << c)
         else: self.U = unit_colours
-        self.unit = self.expand_colours(self.U)
-        self.Tfull = [self.expand_cs(t) for t in self.T]
+        # definitional variables keep the terms small (the simplifier would otherwise hoist the ite-chains)
+        self.defs = []
+        if z3.is_bv_value(self.U): self.unit = self.expand_colours(self.U)
+        else:
+            self.unit = z3.BitVec(f'{prefix}UNITSET', self.W); self.defs.append(self.unit == self.expand_colours(self.U))
+        self.Tfull = []
+        for i, t in enumerate(self.T):
+            tf = z3.BitVec(f'{prefix}TFULL{i}', self.W); self.defs.append(tf == self.expand_cs(t)); self.Tfull.append(tf)
     # ---- index helpers
     def pos(self, i, j): return i * (1 + self.k) + j
     def cpos(self, b): return self.n * (1 + self.k) + b
